@@ -28,7 +28,7 @@ VARIABLES evs,      \* the events so far
           anchors,  \* L: anchor name -> node id (0 = undefined)
           roots,    \* roots of the documents completed so far
           docstart, \* index of the first event of the current document
-          outcome   \* "run", "undefined_alias", "duplicate_anchor", "unhashable_key"
+          outcome   \* "run", "undefined_alias", "duplicate_anchor", "unhashable_key", "unconstructable", "deep_soft"
 vars == <<evs, heap, stack, anchors, roots, docstart, outcome>>
 
 None == "-"
@@ -61,11 +61,24 @@ Reach(h, todo, seen) == IF todo = {} THEN seen
 KeysOf(n) == {n.c[j] : j \in {x \in DOMAIN n.c : x % 2 = 1}}
 BadKey(h, r) == \E n \in Reach(h, {r}, {}) : h[n].kind \in {"map", "set", "obj"} /\ \E k \in KeysOf(h[n]) : Unhashable(h[k])
 
+\* Deep construction (constructor.py:61-100): the arguments of a python/object/apply node ("app") are built with
+\* deep=True: inside that region a two-phase collection is completed BEFORE it is registered, so an alias inside the
+\* region to an enclosing node of the region finds it "in progress".  When the target is the apply node itself the
+\* self-reference runs through constructor arguments and cannot be built (hard: ConstructorError is the required
+\* outcome); when it is an enclosing plain collection inside the region the statement would have it built, the
+\* implementation rejects it (soft: either outcome is accepted; recorded as a limit in DESIGN.md).
+DeepRegion(h, st) == LET apps == {j \in DOMAIN st : h[st[j]].kind = "app"} IN
+                     IF apps = {} THEN {} ELSE {st[j] : j \in {x \in DOMAIN st : x >= (CHOOSE m \in apps : \A y \in apps : m <= y)}}
+DeepMark(h, st, t) == IF t \notin DeepRegion(h, st) THEN "none" ELSE IF h[t].kind = "app" THEN "hard" ELSE "soft"
+DocMarks(h) == {h[j].d : j \in {x \in DOMAIN h : x >= docstart}}
+
 DocDone(h, r) ==    \* compose_document(): anchors cleared; construct_document(): may fail
   /\ anchors' = [a \in Anchors |-> 0]
   /\ roots' = Append(roots, r)
   /\ docstart' = Len(evs) + 2
-  /\ outcome' = IF BadKey(h, r) THEN "unhashable_key" ELSE "run"
+  /\ outcome' = IF BadKey(h, r) THEN "unhashable_key"
+                ELSE IF "hard" \in DocMarks(h) THEN "unconstructable"
+                ELSE IF "soft" \in DocMarks(h) THEN "deep_soft" ELSE "run"
 
 \* room for this event and for the end events of every open collection
 CanStart == outcome = "run" /\ Len(evs) + 1 + Len(stack) <= MaxEvents /\ (stack # <<>> \/ Len(roots) < MaxDocs)
@@ -76,9 +89,9 @@ Scalar(a) ==
      /\ evs' = Append(evs, Ev("S", a, "str"))
      /\ IF a # None /\ anchors[a] # 0
         THEN /\ outcome' = "duplicate_anchor"
-             /\ heap' = Append(heap, [kind |-> "-", c |-> <<>>])
+             /\ heap' = Append(heap, [kind |-> "-", c |-> <<>>, d |-> "none"])
              /\ UNCHANGED <<stack, anchors, roots, docstart>>
-        ELSE LET h1 == Attach(Append(heap, [kind |-> "s", c |-> <<>>]), stack, i) IN
+        ELSE LET h1 == Attach(Append(heap, [kind |-> "s", c |-> <<>>, d |-> "none"]), stack, i) IN
              /\ heap' = h1
              /\ UNCHANGED stack
              /\ IF stack = <<>> THEN DocDone(h1, i)
@@ -90,9 +103,9 @@ Alias(a) ==
   /\ evs' = Append(evs, Ev("A", a, "-"))
   /\ IF anchors[a] = 0
      THEN /\ outcome' = "undefined_alias"
-          /\ heap' = Append(heap, [kind |-> "-", c |-> <<>>])
+          /\ heap' = Append(heap, [kind |-> "-", c |-> <<>>, d |-> "none"])
           /\ UNCHANGED <<stack, anchors, roots, docstart>>
-     ELSE /\ heap' = Attach(Append(heap, [kind |-> "-", c |-> <<>>]), stack, anchors[a])
+     ELSE /\ heap' = Attach(Append(heap, [kind |-> "-", c |-> <<>>, d |-> DeepMark(heap, stack, anchors[a])]), stack, anchors[a])
           /\ UNCHANGED <<stack, anchors, roots, docstart, outcome>>
 
 Start(k, a, kind) ==
@@ -102,18 +115,18 @@ Start(k, a, kind) ==
      /\ evs' = Append(evs, Ev(k, a, kind))
      /\ IF a # None /\ anchors[a] # 0
         THEN /\ outcome' = "duplicate_anchor"
-             /\ heap' = Append(heap, [kind |-> "-", c |-> <<>>])
+             /\ heap' = Append(heap, [kind |-> "-", c |-> <<>>, d |-> "none"])
              /\ UNCHANGED <<stack, anchors, roots, docstart>>
-        ELSE /\ heap' = Attach(Append(heap, [kind |-> kind, c |-> <<>>]), stack, i)
+        ELSE /\ heap' = Attach(Append(heap, [kind |-> kind, c |-> <<>>, d |-> "none"]), stack, i)
              /\ anchors' = IF a = None THEN anchors ELSE [anchors EXCEPT ![a] = i]    \* before the children
              /\ stack' = Append(stack, i)
              /\ UNCHANGED <<roots, docstart, outcome>>
 
 End ==
   /\ outcome = "run" /\ stack # <<>>
-  /\ heap[Last(stack)].kind \in {"seq", "omap"} \/ Len(heap[Last(stack)].c) % 2 = 0
+  /\ heap[Last(stack)].kind \in {"seq", "omap", "app"} \/ Len(heap[Last(stack)].c) % 2 = 0
   /\ evs' = Append(evs, Ev("E", None, "-"))
-  /\ heap' = Append(heap, [kind |-> "-", c |-> <<>>])
+  /\ heap' = Append(heap, [kind |-> "-", c |-> <<>>, d |-> "none"])
   /\ stack' = Front(stack)
   /\ IF Len(stack) = 1 THEN DocDone(heap', Last(stack))
      ELSE UNCHANGED <<anchors, roots, docstart, outcome>>
